@@ -77,7 +77,7 @@ Definition prop_case (x : case) : bool :=
     (documented panics of the CompactBlock / CompactTx accessors, reached from scan_block).
     A case is in a class only if a panic was observed and the input is in the class.
       1  block height does not fit u32
-      2  block hash / previous-block hash is not 32 bytes (and there is no parsable header)
+      2  block hash is not 32 bytes (and there is no parsable header)
       3  a transaction id is not 32 bytes
     and one class of blocks on which the batched path differs from the inline one:
       4  two transactions of the block carry the same txid (the BatchRunner keys its pending
@@ -96,7 +96,7 @@ Definition known_class (x : case) : N :=
       else if 4294967296 <=? b_height b then 1
       else if match b_hdr b with
               | Some _ => false
-              | None => negb (flen (b_hash b) =? 32) || negb (flen (b_prev b) =? 32)
+              | None => negb (flen (b_hash b) =? 32)
               end then 2
       else if existsb (fun t => negb (flen (x_txid t) =? 32)) (b_vtx b) then 3
       else 0
